@@ -201,18 +201,20 @@ func (c *Chunk) record(chunk pb.Chunk) *tracked {
 	td := c.tracked[key]
 	if chunk.ChunkId == 0 {
 		plog.Debugf("first chunk of %s received", c.ssid(chunk))
+		// validate before touching the stream in progress, an invalid first
+		// chunk must be ignored without any effect
+		validator := rsm.NewSnapshotValidator()
+		if c.validate && !chunk.HasFileInfo {
+			if !validator.AddChunk(chunk.Data, chunk.ChunkId) {
+				return nil
+			}
+		}
 		if td != nil {
 			plog.Warningf("removing unclaimed chunks %s", key)
 			c.removeTempDir(td.first)
 		} else {
 			if c.full() {
 				plog.Errorf("max slot count reached, dropped a chunk %s", key)
-				return nil
-			}
-		}
-		validator := rsm.NewSnapshotValidator()
-		if c.validate && !chunk.HasFileInfo {
-			if !validator.AddChunk(chunk.Data, chunk.ChunkId) {
 				return nil
 			}
 		}
